@@ -510,3 +510,10 @@ PROPS["C03"]["suites"] += [{"name": "stream", "quick": 300, "thorough": 3000},
 # C08's "dropping a handle removes the resource at the next callback … a track is removed" clause for tracks inside
 # (possibly paused) track trees is exercised by the mixer's track-life suite.
 PROPS["C08"]["suites"] += [{"name": "mixtrk", "quick": 3000, "thorough": 60000}]
+# C07: "every command kind of every handle type" — clock commands (start / pause / stop / set_speed) are delivered through
+# the same channels; the C05 clock suite exercises them op by op.
+PROPS["C07"]["suites"] += [{"name": "clock", "quick": 1500, "thorough": 30000}]
+# C06 names modulator/tweener.rs (the duplicated tween logic): the C17 tweener suite exercises it.
+PROPS["C06"]["suites"] += [{"name": "tweener", "quick": 1500, "thorough": 30000}]
+# C11: real recursive effects (delay sub-chunking, reverb) across slice boundaries — split-vs-whole oracles of the effect suites.
+PROPS["C11"]["suites"] += [{"name": "fxb", "quick": 1500, "thorough": 20000}, {"name": "fxa", "quick": 1000, "thorough": 20000}]
